@@ -132,6 +132,11 @@ class Differ:
         if have <= d:
             return self.fail(path, f'value with {have} fraction digits not preserved (declared {d})', a, b)
         tol = 0.5 * 10.0 ** -d
+        if d >= 17:
+            # 17/18 fraction digits is beyond what a float64 of this magnitude resolves; the formatter cuts the repr
+            # instead of rounding there (error < 1 unit of the last declared digit, ~1e-14 relative): still "to the
+            # declared precision", not judged as a loss
+            tol = 1.0 * 10.0 ** -d
         slack = 4 * math.ulp(max(abs(a), abs(b))) + tol * 1e-9
         if abs(a - b) > tol + slack:
             return self.fail(path, f'|delta|={abs(a - b):.3g} > 1/2*10^-{d}', a, b)
